@@ -185,6 +185,7 @@ def update(self, *x):
 """,
     "RunningCovarianceMatrix.update_from_it": """
 def update_from_it(self, *xs):
+    xs = [x if hasattr(x, "__len__") else tuple(x) for x in xs]
     for i in range(self.n):
         for j in range(i, self.n):
             self.rcs[i, j].update_from_it(xs[i], xs[j])
